@@ -540,6 +540,10 @@ def run(rep: vlib.Reporter, tier: str, seed: int) -> None:
     rep.count(len(chc))
     rep.add("chains", {"cases": len(chc), "distribution": cdist, "model_disagreements": len(bad_m), "statement_disagreements": len(bad_s)})
 
+    # (b4) WHICH features reach the type check: requests with Links / index columns / GlobalFilters (Model/ValidateSet.v)
+    from harness import c17_links
+    found_input = c17_links.run_family(rep, tier, seed) or found_input
+
     # (c)
     cc = conflict_cases()
     bad, info = vlib.run_cases("C17", "conflict", REQ, "chk_conflict", [conflict_term(c) for c in cc], extra_defs=EXTRA_DEFS,
@@ -589,6 +593,10 @@ def replay(path: str) -> int:
     if r.get("kind") == "srctie":
         from harness import srctie
         srctie.replay(r, show=True)
+        return 0
+    if r.get("kind") == "links":
+        from harness import c17_links
+        c17_links.replay(r)
         return 0
     if r.get("kind") == "e2e":
         obs = e2e_one(r["fw"], r["declared"], r["atype"], r["mode"], r["mix"])
